@@ -45,6 +45,7 @@ inductive Prim where
   | yield (a : Atom)
   | signal (n : Nat) (a : Atom)        -- (signal n a), user signal n
   | error (a : Atom)
+  | debug (a : Atom)                   -- (debug a): JOP_SIGNAL with JANET_SIGNAL_DEBUG
   | resume (f a : Atom)
   | cancel (f a : Atom)
   | propagate (a f : Atom)
@@ -378,6 +379,7 @@ def execPrim (s : State) (p : FId) (fp : Fiber) (rest : List FId) (l : Nat) (pr 
   | .yield a => raise s p (block fp false) rest sigYield (ev a)
   | .signal n a => raise s p (block fp false) rest (userBase + (if n > userMax then userMax else n)) (ev a)
   | .error a => raise s p (block fp false) rest sigError (ev a)
+  | .debug a => raise s p (block fp false) rest sigDebug (ev a)
   | .resume f a =>
     match ev f with
     | .fib g =>
@@ -416,7 +418,7 @@ def execPrim (s : State) (p : FId) (fp : Fiber) (rest : List FId) (l : Nat) (pr 
       match s.fiber? g with
       | none => s.stop (.bad "propagate: no such fiber")
       | some fg =>
-        if fg.status > propagateMaxStatus then
+        if fg.status > propagateMaxStatus ∨ (propagateRefusesDead = true ∧ fg.status = stDead) then
           panic s p fp rest ("cannot propagate from fiber with status :" ++ statusName fg.status)
         else
           raise s p { block fp false with child := some g } rest fg.status (ev a)
